@@ -31,6 +31,14 @@ def lift_target(range_: NodeRange) -> int | None:
                 lifted = lifted.add_to_end(inner.copy(Fragment.empty))
             if node.can_replace(index, end_index, lifted):
                 return depth
+            # the remnant of the inner node also has to fit into the part of this
+            # node that is split off together with it
+            remnant = Fragment.from_(inner.copy(Fragment.empty))
+            if (
+                split_before
+                and not node.can_replace(index, node.child_count, remnant)
+            ) or (split_after and not node.can_replace(0, end_index, remnant)):
+                break
         if (
             depth == 0
             or node.type.spec.get("isolating")
